@@ -23,7 +23,7 @@ LEVEL_NOTE = ('Flux values from a fixed + seed-derived alphabet; the first file 
 RULE = ("cases: (n_ap, distance, n_wav, spectral order) configurations x stored unit A; executions: for every B: read A as B, write, read back as A, and for every C compare "
         "read(B-file, C) with read(A-file, C); non-trivial = distinct (configuration, A, B) with A != B")
 ASSUMPTIONS = ["positive finite fluxes and frequencies", "distance taken from the file header"]
-REQUIRED_CLASSES = ['frequency-column-not-exactly-c-over-wavelength', 'all-stored-numbers-tiny', 'unsupported-stored-unit-refused', 'intermediate-object-in-wavelength-order', 'fluxes-spanning-many-decades', 'spectral-axis-requested-in-GHz-and-nm', 'unsupported-error-unit-refused', 'legacy-unit-strings', 'zero-flux-cell', 'error-column-in-other-unit', 'float32-file', 'distance-keyword-absent', 'pair-different-family', 'chain-ABA', 'chain-ABC', 'unsupported-refused', 'luminosity-with-distance!=1kpc', 'nu-decreasing-in-file', 'multi-aperture']
+REQUIRED_CLASSES = ['distance-of-an-earlier-object-changed-in-place', 'frequency-column-not-exactly-c-over-wavelength', 'all-stored-numbers-tiny', 'unsupported-stored-unit-refused', 'intermediate-object-in-wavelength-order', 'fluxes-spanning-many-decades', 'spectral-axis-requested-in-GHz-and-nm', 'unsupported-error-unit-refused', 'legacy-unit-strings', 'zero-flux-cell', 'error-column-in-other-unit', 'float32-file', 'distance-keyword-absent', 'pair-different-family', 'chain-ABA', 'chain-ABC', 'unsupported-refused', 'luminosity-with-distance!=1kpc', 'nu-decreasing-in-file', 'multi-aperture']
 TIMEOUT = {'quick': 300, 'thorough': 1800}
 
 UNITS = ['mJy', 'Jy', 'erg / (cm2 s)', 'erg / s', 'W / m2', 'MJy']          # MJy: megajansky (not the legacy spelling MJY of mJy)
@@ -147,6 +147,18 @@ def _one_distance(ctx, case, rec, d):
         except Exception as e:
             rec.violation('read|exception', {'A': A, 'B': C}, {'type': type(e).__name__, 'msg': str(e)[:200]})
             return
+    if case['dist'] == 'absent':
+        # the owner of an object read earlier from this file rescales ITS distance in place; objects read before and after are other objects
+        try:
+            kept_ = SED.read(fa)
+            mine_ = SED.read(fa)
+            mine_.distance *= 2.0
+            rec.ev()
+            rec.cls('distance-of-an-earlier-object-changed-in-place')
+            if abs(kept_.distance.to(u.kpc).value - 1.0) > 1e-12:
+                rec.violation('read|distance-shared-between-objects', {'A': A}, {'problem': 'after `other.distance *= 2` the distance of an object read before is %s (the file has no DISTANCE keyword: 1 kpc)' % kept_.distance})
+        except Exception as e:
+            rec.violation('read|exception', {'A': A, 'step': 'in-place distance change'}, {'type': type(e).__name__, 'msg': str(e)[:200]})
     for B in UNITS:
         sub = {'A': A, 'B': B}
         uB = u.Unit(B)
